@@ -5,9 +5,9 @@
 CONSTANTS
   FIXES = {}
   Idents = {"none", "noneHs", "listen", "target", "stranger"}
-  Creds = {"idOnly", "rightSecret", "wrongSecret", "resume", "nothing", "otherId"}
+  Creds = {"idOnly", "rightSecret", "wrongSecret", "resume", "nothing", "otherId", "otherSecret"}
   MStates = {"active", "revoked", "expired", "inactive", "missing"}
-  TStates = {"none", "waiting", "served", "remote"}
+  TStates = {"none", "waiting", "served", "remote", "lateLocal", "lateRemote"}
   Orders = {"legitFirst", "reqFirst"}
   Masked = FALSE
   Emit = FALSE
